@@ -525,6 +525,10 @@ class Interp:
                 r = any(self._is_or_eq(left, x, op) for x in right.items)
                 if isinstance(op, ast.NotIn):
                     r = not r
+            elif isinstance(left, Const) and isinstance(right, Const) and all(
+                    isinstance(c.v, (int, float)) and not isinstance(c.v, bool) for c in (left, right)):
+                # (two known numbers: positions on a ladder, lengths)
+                r = {ast.Lt: left.v < right.v, ast.LtE: left.v <= right.v, ast.Gt: left.v > right.v, ast.GtE: left.v >= right.v}[type(op)]
             else:
                 raise AnalysisError(f"abstract evaluator: comparison `{short(e)}` is value-dependent")
             if not r:
@@ -680,6 +684,16 @@ class Interp:
             if not isinstance(kind, Cls) or not isinstance(nullable, Const):
                 raise AnalysisError(f"abstract evaluator: DataType({kind!r}, {nullable!r}) at line {e.lineno}")
             return DT(kind.tag, bool(nullable.v))
+        if isinstance(fn, ast.Attribute) and fn.attr in ("index", "count") and len(e.args) == 1 and not e.keywords:
+            recv = self.ev(fn.value, env, f)
+            if isinstance(recv, Tup):
+                x = self.ev(e.args[0], env, f)
+                hits = [i for i, y in enumerate(recv.items) if self.same(y, x)]
+                if fn.attr == "count":
+                    return Const(len(hits))
+                if not hits:
+                    raise Raised("ValueError")
+                return Const(hits[0])
         # method call on an abstract receiver / package function
         callee = self.ev(fn, env, f)
         args = [self.ev(a, env, f) for a in e.args]
